@@ -249,7 +249,7 @@ CASE_DEADLINE = 60.0
 _held = {}
 
 
-WARM_KINDS = ("add", "remove", "add_annotator", "merge", "copy", "merge_out", "plus")
+WARM_KINDS = ("add", "remove", "add_annotator", "merge", "copy", "merge_out", "plus", "replace")
 
 
 def warm_continuum(spec, warm, kind):
@@ -283,6 +283,16 @@ def warm_continuum(spec, warm, kind):
         right = build_continuum({"annotators": [[anns[i][0], [moved]]]})
         align(left)
         return left.merge(right, in_place=False) if how == "merge_out" else left + right
+    if how == "replace" and nonempty:
+        # same annotators, same unit counts: one unit is swapped in place (remove + add) after the earlier alignment
+        i = nonempty[-1]
+        real = anns[i][1][-1]
+        stand_in = [real[0] + 0.5, real[1] + 1.5, real[2]]  # close to the real one: it gets paired the same way, at another cost
+        c = build_continuum({"annotators": [[a, (us[:-1] + [stand_in] if k == i else us)] for k, (a, us) in enumerate(anns)]})
+        align(c)
+        c.remove(anns[i][0], to_unit_(stand_in))
+        c.add(anns[i][0], Segment(real[0], real[1]), real[2])
+        return c
     if how == "remove" and nonempty:
         i = nonempty[0]
         extra = [57, 59, anns[i][1][0][2]]
